@@ -185,40 +185,40 @@ package semantic
 //@ pure func isConstName(a *parser.Thrift, name string) bool { return inDom(a.Name2Category, name) && a.Name2Category[name] == parser.Category_Constant }
 //@ pure func denotes(a *parser.Thrift, x *parser.ConstValueExtra) bool { return (x.Index == -1 || (0 <= x.Index && x.Index < len(a.Includes))) && ite(x.IsEnum, hasEnumValue(astAt(a, x.Index), x.Sel, x.Name), isConstName(astAt(a, x.Index), x.Name)) }
 //@ pure func refsOK(a *parser.Thrift, ref []*parser.ConstValueExtra) bool { return forall i int :: 0 <= i && i < len(ref) ==> ref[i] != nil && denotes(a, ref[i]) }
+//@ pure func distinctIncs(r *resolver) bool { return forall a, b int :: 0 <= a && a < b && b < len(r.ast.Includes) ==> r.ast.Includes[a] != r.ast.Includes[b] }
 //@ pure func ident(t *parser.ConstValue) string { return ite(t.TypedValue.Identifier != nil, *t.TypedValue.Identifier, "") }
 
 //@ pure func bound1(a *parser.Thrift, x *parser.ConstValue) bool { return x.Type == parser.ConstType_ConstIdentifier && ident(x) != "true" && ident(x) != "false" ==> x.Extra != nil && denotes(a, x.Extra) }
 
 //@ func (r *resolver) ResolveConstValue(t *parser.ConstValue) (err error)
-//@   requires wfResolver(r) && wfThs() && tdRefsOK() && wfCVs() && wfEnumsG() && t != nil
+//@   requires wfResolver(r) && wfThs() && tdRefsOK() && wfCVs() && wfEnumsG() && t != nil && distinctIncs(r)
 //@   ensures err == nil && t.Type == parser.ConstType_ConstIdentifier && ident(t) != "true" && ident(t) != "false" ==> t.Extra != nil && denotes(r.ast, t.Extra)
 //@   ensures forall x *parser.ConstValue :: x != nil && old(allocated(x) && x.Extra != nil && denotes(r.ast, x.Extra)) ==> x.Extra != nil && denotes(r.ast, x.Extra)
 //@   ensures err == nil && t.Type == parser.ConstType_ConstList ==> forall i int :: 0 <= i && i < len(t.TypedValue.List) ==> bound1(r.ast, t.TypedValue.List[i])
-//@   ensures err == nil && t.Type == parser.ConstType_ConstMap ==> forall i int :: 0 <= i && i < len(t.TypedValue.Map) ==> bound1(r.ast, t.TypedValue.Map[i].Key) && bound1(r.ast, t.TypedValue.Map[i].Value)
+//@   ensures err == nil && t.Type == parser.ConstType_ConstIdentifier ==> forall k int :: 0 <= k && k < len(r.ast.Includes) && r.ast.Includes[k].Used != old(r.ast.Includes[k].Used) ==> t.Extra != nil && t.Extra.Index == k
 //@   modifies parser.ConstValue.Extra, parser.Include.Used
-//@   loop 1 invariant err == nil && refsOK(r.ast, ref)
+//@   loop 1 invariant err == nil && refsOK(r.ast, ref) && forall k int :: 0 <= k && k < len(r.ast.Includes) && r.ast.Includes[k].Used != old(r.ast.Includes[k].Used) ==> exists j int :: 0 <= j && j < len(ref) && ref[j].Index == k
 //@   loop 2 invariant forall x *parser.ConstValue :: x != nil && old(allocated(x) && x.Extra != nil && denotes(r.ast, x.Extra)) ==> x.Extra != nil && denotes(r.ast, x.Extra)
 //@   loop 2 invariant forall i int :: 0 <= i && i < $i ==> bound1(r.ast, t.TypedValue.List[i])
 //@   loop 3 invariant forall x *parser.ConstValue :: x != nil && old(allocated(x) && x.Extra != nil && denotes(r.ast, x.Extra)) ==> x.Extra != nil && denotes(r.ast, x.Extra)
-//@   loop 3 invariant forall i int :: 0 <= i && i < $i ==> bound1(r.ast, t.TypedValue.Map[i].Key) && bound1(r.ast, t.TypedValue.Map[i].Value)
-//@   loop 1.1 invariant err == nil && refsOK(r.ast, ref)
-//@   loop 1.2 invariant err == nil && refsOK(r.ast, ref)
-//@   loop 1.3 invariant err == nil && refsOK(r.ast, ref)
-//@   loop 1.3.1 invariant err == nil && refsOK(r.ast, ref)
+//@   loop 1.1 invariant err == nil && refsOK(r.ast, ref) && forall k int :: 0 <= k && k < len(r.ast.Includes) && r.ast.Includes[k].Used != old(r.ast.Includes[k].Used) ==> exists j int :: 0 <= j && j < len(ref) && ref[j].Index == k
+//@   loop 1.2 invariant err == nil && refsOK(r.ast, ref) && forall k int :: 0 <= k && k < len(r.ast.Includes) && r.ast.Includes[k].Used != old(r.ast.Includes[k].Used) ==> exists j int :: 0 <= j && j < len(ref) && ref[j].Index == k
+//@   loop 1.3 invariant err == nil && refsOK(r.ast, ref) && forall k int :: 0 <= k && k < len(r.ast.Includes) && r.ast.Includes[k].Used != old(r.ast.Includes[k].Used) ==> exists j int :: 0 <= j && j < len(ref) && ref[j].Index == k
+//@   loop 1.3.1 invariant err == nil && refsOK(r.ast, ref) && forall k int :: 0 <= k && k < len(r.ast.Includes) && r.ast.Includes[k].Used != old(r.ast.Includes[k].Used) ==> exists j int :: 0 <= j && j < len(ref) && ref[j].Index == k
 
 // Defaults of struct fields, and of function arguments and exceptions, are constant values like any other.
 //@ pure func wfArgs(fs []*parser.Field) bool { return forall i int :: 0 <= i && i < len(fs) ==> fs[i] != nil && fs[i].Type != nil }
 //@ pure func defaultsBound(a *parser.Thrift, fs []*parser.Field, n int) bool { return forall i int :: 0 <= i && i < n && fs[i].Default != nil ==> bound1(a, fs[i].Default) }
 
 //@ func (r *resolver) ResolveStructField(s string, f *parser.Field) (err error)
-//@   requires wfResolver(r) && wfTypes() && wfThs() && tdRefsOK() && tdRootsNotChildren() && wfCVs() && wfEnumsG() && f != nil && f.Type != nil && ownTd(r, f.Type)
+//@   requires wfResolver(r) && wfTypes() && wfThs() && tdRefsOK() && tdRootsNotChildren() && wfCVs() && wfEnumsG() && f != nil && f.Type != nil && ownTd(r, f.Type) && distinctIncs(r)
 //@   ensures err == nil && f.Default != nil ==> bound1(r.ast, f.Default)
 //@   ensures forall x *parser.ConstValue :: x != nil && old(allocated(x) && x.Extra != nil && denotes(r.ast, x.Extra)) ==> x.Extra != nil && denotes(r.ast, x.Extra)
 //@   ensures wfTypes()
 //@   modifies parser.Type.Category, parser.Type.IsTypedef, parser.Type.Reference, parser.Include.Used, r.typedefs, parser.ConstValue.Extra
 
 //@ func (r *resolver) ResolveFunction(s string, f *parser.Function) (err error)
-//@   requires wfResolver(r) && wfTypes() && wfThs() && tdRefsOK() && tdRootsNotChildren() && wfCVs() && wfEnumsG() && f != nil && wfArgs(f.Arguments) && wfArgs(f.Throws) && (!f.Void ==> f.FunctionType != nil && ownTd(r, f.FunctionType))
+//@   requires wfResolver(r) && wfTypes() && wfThs() && tdRefsOK() && tdRootsNotChildren() && wfCVs() && wfEnumsG() && f != nil && wfArgs(f.Arguments) && wfArgs(f.Throws) && (!f.Void ==> f.FunctionType != nil && ownTd(r, f.FunctionType)) && distinctIncs(r)
 //@   requires (forall i int :: 0 <= i && i < len(f.Arguments) ==> ownTd(r, f.Arguments[i].Type)) && (forall i int :: 0 <= i && i < len(f.Throws) ==> ownTd(r, f.Throws[i].Type))
 //@   ensures err == nil ==> defaultsBound(r.ast, f.Arguments, len(f.Arguments)) && defaultsBound(r.ast, f.Throws, len(f.Throws))
 //@   ensures wfTypes()
@@ -250,8 +250,6 @@ package semantic
 //@   ensures err == nil ==> xCS(t, len(t.Constants), nSL(t)) && xCV(t, len(t.Constants), len(t.Services)) && xSV(t, nSL(t), len(t.Services))
 //@   loop 1 invariant err == nil && globals != nil && mapOK(globals, t, $i, 0, 0, 0) && dT(t, $i)
 //@   loop 2 invariant err == nil && globals != nil && mapOK(globals, t, len(t.Typedefs), $i, 0, 0) && dT(t, len(t.Typedefs)) && dC(t, $i) && xTC(t, len(t.Typedefs), $i)
-//@   loop 3 invariant err == nil && globals != nil && len($xs) == nSL(t) && (forall k int :: 0 <= k && k < len($xs) ==> $xs[k] == slAt(t, k)) && mapOK(globals, t, len(t.Typedefs), len(t.Constants), $i, 0)
-//@   loop 3 invariant dT(t, len(t.Typedefs)) && dC(t, len(t.Constants)) && xTC(t, len(t.Typedefs), len(t.Constants)) && dS(t, $i) && xTS(t, len(t.Typedefs), $i) && xCS(t, len(t.Constants), $i)
 //@   loop 4 invariant err == nil && globals != nil && mapOK(globals, t, len(t.Typedefs), len(t.Constants), nSL(t), $i)
 //@   loop 4 invariant dT(t, len(t.Typedefs)) && dC(t, len(t.Constants)) && xTC(t, len(t.Typedefs), len(t.Constants)) && dS(t, nSL(t)) && xTS(t, len(t.Typedefs), nSL(t)) && xCS(t, len(t.Constants), nSL(t))
 //@   loop 4 invariant dV(t, $i) && xTV(t, len(t.Typedefs), $i) && xCV(t, len(t.Constants), $i) && xSV(t, nSL(t), $i)
